@@ -339,6 +339,62 @@ Fixpoint quota_adm (c : cfg) (st : mstate) (evs : list ev) : list Z :=
   end.
 
 (* ---------------------------------------------------------------------------------- *)
+(* get-or-create of a token's counter, as the two critical sections it really is        *)
+(* ---------------------------------------------------------------------------------- *)
+
+(* Manager.getOrCreate{Minute,Hour}Limiter / getOrCreateQuotaTracker: a lookup under the read
+   lock; on a miss a second critical section under the write lock which RE-CHECKS the map
+   before creating and storing a new counter ([recheck = true], the code as it is) - or, in
+   the variant without the double-check ([recheck = false]), stores a freshly built counter
+   unconditionally, overwriting whatever another request stored in between.  Then Allow on
+   the counter obtained (one critical section of that counter).  The clock is held inside one
+   window, so a counter is just its number of admissions. *)
+Inductive gpc :=
+| GStart                (* before the read-locked lookup *)
+| GMiss                 (* lookup missed; before the write-locked section *)
+| GHave (i : nat)       (* holds counter object i; before its Allow *)
+| GDone (ok : bool).
+
+Record gstate := { g_slot : option nat;     (* the map entry of the token *)
+                   g_objs : list Z }.       (* admissions counted by every counter object created *)
+
+Definition g_init : gstate := {| g_slot := None; g_objs := [] |}.
+
+Definition gstep (recheck : bool) (limit : Z) (s : gstate) (p : gpc) : option (gstate * gpc) :=
+  match p with
+  | GStart => Some (s, match g_slot s with Some i => GHave i | None => GMiss end)
+  | GMiss =>
+      match (if recheck then g_slot s else None) with
+      | Some i => Some (s, GHave i)
+      | None => let i := length (g_objs s) in
+                Some ({| g_slot := Some i; g_objs := g_objs s ++ [0] |}, GHave i)
+      end
+  | GHave i =>
+      let c := nth i (g_objs s) 0 in
+      if (0 <? limit) && (limit <=? c) then Some (s, GDone false)
+      else Some ({| g_slot := g_slot s; g_objs := set_nth i (c + 1) (g_objs s) |}, GDone true)
+  | GDone _ => None
+  end.
+
+Definition gupd (i : nat) (p : gpc) (ts : list gpc) : list gpc := firstn i ts ++ p :: skipn (S i) ts.
+
+Fixpoint gadm (ts : list gpc) : Z :=
+  match ts with [] => 0 | GDone true :: r => 1 + gadm r | _ :: r => gadm r end.
+
+(* run a schedule (thread indices) from n threads at GStart; used by the refutation witness *)
+Fixpoint grun (recheck : bool) (limit : Z) (s : gstate) (ts : list gpc) (sched : list nat) : gstate * list gpc :=
+  match sched with
+  | [] => (s, ts)
+  | i :: r => match nth_error ts i with
+              | Some p => match gstep recheck limit s p with
+                          | Some (s', p') => grun recheck limit s' (gupd i p' ts) r
+                          | None => grun recheck limit s ts r
+                          end
+              | None => grun recheck limit s ts r
+              end
+  end.
+
+(* ---------------------------------------------------------------------------------- *)
 (* counting and window predicates used by the theorems and by the oracles              *)
 (* ---------------------------------------------------------------------------------- *)
 
